@@ -1815,7 +1815,7 @@ def flat_statements(stmts):
     return out
 
 
-def reader_size_tokens(f, stmts):
+def reader_size_tokens(f, stmts, want_vars=False):
     """simulate the find/erase tokeniser on the statements of one case group (top level only) and return
     token index -> role of the parsed number"""
     decl = {}
@@ -1885,10 +1885,146 @@ def reader_size_tokens(f, stmts):
                 for a, b in ((strip_cast(c["lhs"]), strip_cast(c["rhs"])), (strip_cast(c["rhs"]), strip_cast(c["lhs"]))):
                     if a.get("k") == "Ref" and a.get("d") in numvar and b.get("k") == "Int":
                         roles.setdefault(numvar[a["d"]], ("const", str(int(b["v"])), n.get("l")))
+    if want_vars:
+        return roles, numvar
     return roles
 
 
-def writer_size_lines(f, stmts):
+def norm_dim(name):
+    """row / rows / rows_in -> 'row';  col / column(s) -> 'col'"""
+    n = re.sub(r"_in$", "", (name or "").lstrip("_"))
+    if n in ("row", "rows"):
+        return "row"
+    if n in ("col", "cols", "column", "columns"):
+        return "col"
+    return n
+
+
+def check_linearisation(ck, facts):
+    """text modes of dense two-dimensional data: the reader that splits a running entry counter i into (i / E, i % E) must divide by the
+    extent of the dimension that receives i % E, and that dimension must be the one the writer of the same mode runs fastest;
+    blocked vectors: the reader divides the parsed (pod) length by the factor the writer's length accessor multiplies with"""
+    wr = stream_overloads(facts, "write_out", "ostream")
+    rd = stream_overloads(facts, "read_from", "istream")
+    seen = set()
+    for cls in sorted(set(wr) & set(rd)):
+        fw, fr = wr[cls], rd[cls]
+        if (fr.file, fr.line) in seen:
+            continue
+        seen.add((fr.file, fr.line))
+        sw, sr = mode_switch(fw), mode_switch(fr)
+        if sw is None or sr is None:
+            continue
+        sc = strip_targs(short_cls(cls))
+        for ls, st in switch_groups(sw):
+            for ls2, st2 in switch_groups(sr):
+                if not (ls & ls2) or "default" in ls:
+                    continue
+                mode = "+".join(sorted(l.rsplit("::", 1)[-1] for l in ls))
+                roles, numvar = reader_size_tokens(fr, st2, want_vars=True)
+                var_role = {d: roles[t] for d, t in numvar.items() if t in roles}
+                decl = const_inits(fr)
+                # ---- (i / E, i % E) pairs
+                quo, rem = {}, {}
+                for s_ in st2:
+                    for n in walk(s_):
+                        if n.get("k") == "Var" and n.get("init") is not None:
+                            e = strip_cast(n["init"])
+                            while e.get("k") in ("Construct", "TempObj") and len(e.get("a", [])) == 1:
+                                e = strip_cast(e["a"][0])
+                            if e.get("k") == "Bin" and e.get("op") in ("/", "%") and strip_cast(e["lhs"]).get("k") == "Ref" and strip_cast(e["rhs"]).get("k") == "Ref":
+                                (quo if e["op"] == "/" else rem)[n["d"]] = (strip_cast(e["lhs"])["d"], strip_cast(e["rhs"]), n.get("l"))
+                for s_ in st2:
+                    for c in walk(s_):
+                        if not (is_call(c) and c.get("pn")):
+                            continue
+                        args = c.get("a", [])
+                        off = len(args) - len(c["pn"])      # operator(): the object is argument 0
+                        qa = [(i, strip_cast(a)["d"]) for i, a in enumerate(args) if strip_cast(a).get("k") == "Ref" and strip_cast(a).get("d") in quo]
+                        ra = [(i, strip_cast(a)["d"]) for i, a in enumerate(args) if strip_cast(a).get("k") == "Ref" and strip_cast(a).get("d") in rem]
+                        if len(qa) != 1 or len(ra) != 1 or off < 0:
+                            continue
+                        (qi, qd), (ri, rdv) = qa[0], ra[0]
+                        if quo[qd][0] != rem[rdv][0]:
+                            continue
+                        slow, fast = norm_dim(c["pn"][qi - off]), norm_dim(c["pn"][ri - off])
+                        Eq, Er = quo[qd][1], rem[rdv][1]
+                        rq = var_role.get(Eq.get("d"))
+                        rr = var_role.get(Er.get("d"))
+                        key = "%s/%s/counter-split" % (sc, mode)
+                        if rq is None or rr is None:
+                            ck.incomplete("E2.linearisation", "%s: role of the divisor '%s' not established from the size line" % (key, render(Er)))
+                            continue
+                        ok = norm_dim(rq[1]) == fast and norm_dim(rr[1]) == fast
+                        ck.ob("E2.linearisation", key, ok,
+                              "entry counter split as (%s = i / %s, %s = i %% %s): the divisors are the %s / %s extent, the index taken modulo is the %s index%s" % (
+                                  c["pn"][qi - off], render(Eq), c["pn"][ri - off], render(Er), rq[1], rr[1], fast,
+                                  "" if ok else " - it must be divided by the extent of that dimension (wrong for every non-square shape)"), fr.file, quo[qd][2],
+                              sample={"slow": slow, "fast": fast, "divisor": [rq[1], rr[1]]})
+                        # the writer runs the same dimension fastest
+                        wfast = None
+                        for s2 in st:
+                            for lp in walk(s2):
+                                if lp.get("k") != "For":
+                                    continue
+                                inner = [x for x in walk(lp.get("body")) if x.get("k") == "For"]
+                                if not inner:
+                                    continue
+                                il = inner[-1]
+                                try:
+                                    iv = il["init"]["vars"][0]["d"]
+                                except Exception:
+                                    continue
+                                for x in walk(il.get("body")):
+                                    if is_call(x) and x.get("pn") and any(norm_dim(p_) in ("row", "col") for p_ in x["pn"]):
+                                        o2 = len(x.get("a", [])) - len(x["pn"])
+                                        for i_, a_ in enumerate(x.get("a", [])):
+                                            if strip_cast(a_).get("k") == "Ref" and strip_cast(a_).get("d") == iv and i_ - o2 >= 0:
+                                                b_ = through_consts(fw, strip_cast(il["c"])["rhs"]) if strip_cast(il.get("c")).get("k") == "Bin" else None
+                                                wfast = (norm_dim(x["pn"][i_ - o2]), norm_dim(b_.get("n")) if b_ is not None and b_.get("k") == "MCall" else None, il.get("l"))
+                        key2 = "%s/%s/fastest-dimension" % (sc, mode)
+                        if wfast is None:
+                            ck.incomplete("E2.linearisation", "%s: nested entry loops of the writer not recognised" % key2)
+                        else:
+                            ok2 = wfast[0] == fast and wfast[1] == fast
+                            ck.ob("E2.linearisation", key2, ok2, "writer's inner loop runs over %s() and feeds the %s index; the reader takes the %s index modulo" % (
+                                wfast[1], wfast[0], fast), fw.file, wfast[2])
+                # ---- blocked vectors: length scaled by the block size on both sides
+                for s_ in st2:
+                    for c in walk(s_):
+                        if c.get("k") in ("Construct", "TempObj") and strip_targs(c.get("ccls") or "") == strip_targs(cls) and len(c.get("a", [])) >= 1:
+                            a0 = strip_cast(c["a"][0])
+                            if a0.get("k") == "Bin" and a0.get("op") == "/" and strip_cast(a0["lhs"]).get("d") in numvar:
+                                try:
+                                    div = eval_int(a0["rhs"], {})
+                                except Unknown:
+                                    continue
+                                lines = writer_size_lines(fw, st, raw=True)
+                                fac = None
+                                for items, wl in lines:
+                                    x = through_consts(fw, items[0]) if items else None
+                                    if x is not None and x.get("k") == "MCall":
+                                        for g in facts.functions:
+                                            if g.full == x.get("cfull") and g.tk != "pattern":
+                                                for r_ in g.nodes():
+                                                    if r_.get("k") == "Return" and r_.get("e") is not None:
+                                                        e = strip_cast(r_["e"])
+                                                        if e.get("k") == "Bin" and e.get("op") == "*":
+                                                            try:
+                                                                fac = eval_int(e["rhs"], {})
+                                                            except Unknown:
+                                                                try:
+                                                                    fac = eval_int(e["lhs"], {})
+                                                                except Unknown:
+                                                                    pass
+                                if fac is None:
+                                    ck.incomplete("E2.linearisation", "%s/%s: scaling of the written length not recognised" % (sc, mode))
+                                else:
+                                    ck.ob("E2.linearisation", "%s/%s/length-scale" % (sc, mode), fac == div,
+                                          "writer streams the length multiplied by %s, reader divides the parsed length by %s" % (fac, div), fr.file, c.get("l"))
+
+
+def writer_size_lines(f, stmts, raw=False):
     """`file << A << " " << B ... << "\\n"` chains that stream accessor values / constants (not entry lines inside loops)"""
     decl = {}
     for n in f.nodes():
@@ -1921,7 +2057,7 @@ def writer_size_lines(f, stmts):
                 items = [x for x in flatten_chain(s)[1:] if strip_cast(x).get("k") != "Str"]
                 rs = [role(x) for x in items]
                 if rs and all(r is not None for r in rs) and any(r[0] == "role" for r in rs):
-                    out.append((rs, s.get("l")))
+                    out.append((items if raw else rs, s.get("l")))
     visit(stmts, False)
     return out
 
@@ -2829,6 +2965,7 @@ def check_pack(ck, facts):
 # -------------------------------------------------------------------------------------------------
 
 SLOT_VECTORS = ("_elements", "_indices")
+ZERO_ACCESSORS = ("size", "used_elements")     # scalar accessors whose value is decided per class from the constructors
 
 
 def this_member(n, names):
@@ -2836,35 +2973,94 @@ def this_member(n, names):
     return (n is not None and n.get("k") == "Member" and n.get("n") in names and (n.get("b") is None or strip_cast(n["b"]).get("k") == "This"))
 
 
-def leaves(stmt):
-    """does control leave the enclosing statement list when this statement is executed?"""
-    ss = stmts_of(stmt)
-    if not ss:
+def is_zero(n):
+    n = strip_cast(n)
+    while n is not None and n.get("k") in ("Construct", "TempObj") and len(n.get("a", [])) == 1:
+        n = strip_cast(n["a"][0])
+    return n is not None and n.get("k") == "Int" and int(n["v"]) == 0
+
+
+def obj_key(o):
+    o = strip_cast(o) if o is not None else None
+    if o is None or o.get("k") == "This":
+        return "this"
+    if o.get("k") == "Ref":
+        return "d%s" % o.get("d")
+    return render(o)
+
+
+def emptiness_polarity(cond, obj, vec):
+    """+1: cond true => the arrays of `obj` may be unallocated (size()==0, used_elements()==0, _vec.size()==0, _vec.empty());
+       -1: cond true => they are allocated / there is something to process (!= 0, > 0, !empty()); None: not an emptiness test"""
+    c = strip_cast(cond)
+    if c is None:
+        return None
+    if c.get("k") == "Un" and c.get("op") == "!":
+        p = emptiness_polarity(c["e"], obj, vec)
+        return -p if p else None
+
+    def subject(x):
+        x = strip_cast(x)
+        if x is None or x.get("k") != "MCall" or x.get("a"):
+            return False
+        o = x.get("obj")
+        if x.get("n") in ZERO_ACCESSORS and obj_key(o) == obj:
+            return True
+        if x.get("n") in ("size", "empty") and this_member(o, (vec,)) and obj == "this":
+            return True
         return False
-    last = ss[-1]
-    if last.get("k") in ("Return", "Break", "Continue", "Throw"):
-        return True
-    return is_call(last) and bool(last.get("noreturn"))
+    if c.get("k") == "MCall" and c.get("n") == "empty" and subject(c):
+        return 1
+    if c.get("k") == "Bin" and c.get("op") in ("==", "!=", ">", "<"):
+        l, r = c["lhs"], c["rhs"]
+        if subject(l) and is_zero(r):
+            return {"==": 1, "!=": -1, ">": -1}.get(c["op"])
+        if subject(r) and is_zero(l):
+            return {"==": 1, "!=": -1, "<": -1}.get(c["op"])
+    return None
 
 
-def emptiness_guards(fn, par, node, vec):
-    """If-statements that precede `node` (in its own or an enclosing statement list), test emptiness of `vec`
-    (or size()/used_elements() == 0) and leave on emptiness"""
-    out = []
+def cfg_block_of(fn, par, node):
+    """CFG block in which `node` (or the closest enclosing recorded statement, or the loop header of a loop) is evaluated"""
+    cfg = fn.cfg
+    if cfg is None:
+        return None
+    if node.get("k") in ("For", "While") and node.get("c") is not None:
+        for b in cfg.blocks.values():
+            if b.get("cond") == node["c"].get("i"):
+                return b["id"]
     x = node
-    while id(x) in par:
-        p = par[id(x)]
-        if p.get("k") in ("Block",) or isinstance(p.get("s"), list):
-            sl = p.get("s", [])
-            for s in sl:
-                if s is x:
-                    break
-                if s.get("k") == "If" and leaves(s.get("then")):
-                    c = render(strip_cast(s["c"]))
-                    if re.search(r"%s\.(size\(\) == 0|empty\(\))" % re.escape(vec), c) or re.search(r"this->(size|used_elements)(<[^>]*>)?\(\) == 0", c):
-                        out.append(s)
-        x = p
-    return out
+    while x is not None:
+        w = cfg.block_of(x.get("i")) if x.get("i") is not None else None
+        if w is not None:
+            return w[0]
+        x = par.get(id(x))
+    return None
+
+
+def emptiness_guard(fn, par, node, obj, vec):
+    """a branch on an emptiness test that dominates `node` and from whose 'empty' edge `node` cannot be reached -> the If node, else None"""
+    cfg = fn.cfg
+    tb = cfg_block_of(fn, par, node)
+    if cfg is None or tb is None:
+        return None
+    for b in cfg.blocks.values():
+        if b.get("cond") is None or b.get("term") not in ("IfStmt", "ConditionalOperator") or len(b.get("succ", [])) != 2:
+            continue
+        c = fn.by_id(b["cond"])
+        if c is None:
+            continue
+        pol = emptiness_polarity(c, obj, vec)
+        if pol is None:
+            continue
+        empty_succ = b["succ"][0] if pol > 0 else b["succ"][1]
+        if b["id"] != tb and b["id"] not in cfg.dom.get(tb, ()):
+            continue
+        if empty_succ is None:
+            return c
+        if tb not in cfg.reachable(empty_succ):
+            return c
+    return None
 
 
 def nullable_accessors(facts, cls):
@@ -2881,39 +3077,170 @@ def nullable_accessors(facts, cls):
     return out
 
 
-def scalar_slot_of(facts, cls, name):
-    """accessor `name` of cls returns this->_scalar_index.at(k) (possibly scaled) -> k"""
+def scalar_slot_of(facts, callee, depth=0):
+    """the accessor `callee` (qualified name) returns this->_scalar_index.at(k), possibly scaled by a block size or through
+    another zero-argument accessor of the object -> k"""
     ks = set()
     for f in facts.functions:
-        if f.cls == cls and f.name == name and f.tk != "pattern" and not f.params:
-            for n in f.nodes():
+        if f.qn == callee and f.tk != "pattern" and not f.params:
+            rets = [x for r in f.nodes() if r.get("k") == "Return" and r.get("e") is not None and not is_zero(r["e"]) for x in walk(r["e"])]
+            for n in rets:
                 if n.get("k") == "MCall" and n.get("n") == "at" and this_member(n.get("obj"), ("_scalar_index",)) and strip_cast(n["a"][0]).get("k") == "Int":
                     ks.add(int(strip_cast(n["a"][0])["v"]))
+                elif n.get("k") == "MCall" and not n.get("a") and n.get("callee") != callee and depth < 3 and obj_key(n.get("obj")) == "this":
+                    k2 = scalar_slot_of(facts, n.get("callee"), depth + 1)
+                    if k2 is not None:
+                        ks.add(k2)
     return ks.pop() if len(ks) == 1 else None
 
 
 def unallocated_states(facts, cls, vec):
-    """constructors of cls that never push to `vec`: -> [(ctor, {scalar slot -> 'param'|'const'})]"""
+    """constructors of cls with a path that never pushes to `vec`: -> [(ctor, {scalar slot -> 'zero'|'param'|'other'}, parameter names)].
+    Slot 0 is the argument of the Container base initialiser, slot k the k-th `_scalar_index.push_back`.  A push that is preceded
+    by `if(param == 0) return;` leaves the arrays unallocated exactly when that parameter is zero."""
     out = []
     for f in facts.functions:
         if f.cls != cls or f.tk == "pattern" or not f.d.get("ctor"):
-            continue
-        if any(n.get("k") == "MCall" and n.get("n") in ("push_back", "assign", "emplace_back") and this_member(n.get("obj"), (vec,)) for n in f.nodes()):
             continue
         if any(is_call(n) and n.get("n") in ("read_from", "convert", "clone", "move", "assign", "_deserialize") for n in f.nodes()):
             continue
         if any(n.get("k") in ("Construct",) and strip_targs(n.get("ccls") or "") == strip_targs(cls) for i_ in (f.d.get("inits") or []) for n in walk(i_.get("init"))):
             continue   # delegating constructor
+        zero_params = set()
+        pushes = [n for n in f.nodes() if n.get("k") == "MCall" and n.get("n") in ("push_back", "assign", "emplace_back") and this_member(n.get("obj"), (vec,))]
+        if pushes:
+            # only the early-return-on-zero idiom leaves the arrays unallocated
+            early = None
+            for s_ in stmts_of(f.body):
+                if any(p_ is x for p_ in pushes for x in walk(s_)):
+                    break
+                if s_.get("k") == "If" and any(x.get("k") == "Return" for x in stmts_of(s_.get("then"))):
+                    c = strip_cast(s_["c"])
+                    if c.get("k") == "Bin" and c.get("op") == "==":
+                        for a_, b_ in ((c["lhs"], c["rhs"]), (c["rhs"], c["lhs"])):
+                            if strip_cast(a_).get("dk") == "param" and is_zero(b_):
+                                early = strip_cast(a_)["d"]
+            if early is None:
+                continue
+            zero_params.add(early)
+
+        def source(a):
+            refs = [x for x in walk(a) if x.get("k") == "Ref" and x.get("dk") == "param"]
+            if is_zero(a):
+                return "zero"
+            if refs and all(x["d"] in zero_params for x in refs) and strip_cast(a).get("k") == "Ref":
+                return "zero"
+            if refs:
+                # a product with a zero parameter is zero
+                a0 = strip_cast(a)
+                if a0.get("k") == "Bin" and a0.get("op") == "*" and any(strip_cast(x).get("d") in zero_params for x in (a0["lhs"], a0["rhs"])):
+                    return "zero"
+                return "param"
+            return "other"
         slots = {}
+        for i_ in (f.d.get("inits") or []):
+            ini = i_.get("init")
+            if ini is not None and "Container<" in (i_.get("base") or "") and ini.get("a"):
+                slots[0] = source(ini["a"][0])
         k = 1
         for n in walk(f.body):
             if n.get("k") == "MCall" and n.get("n") == "push_back" and this_member(n.get("obj"), ("_scalar_index",)):
-                a = n["a"][0]
-                slots[k] = "param" if any(x.get("k") == "Ref" and x.get("dk") == "param" for x in walk(a)) else "const"
+                slots[k] = source(n["a"][0])
                 k += 1
-        pnames = [p["n"] for p in f.params]
-        out.append((f, slots, pnames))
+        out.append((f, slots, [p["n"] for p in f.params]))
     return out
+
+
+class FreeState:
+    """value of integer expressions in the states of an object in which the arrays behind a nullable accessor are unallocated"""
+
+    def __init__(self, facts, fn, cls, vec, obj):
+        self.facts, self.fn, self.cls, self.vec, self.obj = facts, fn, cls, vec, obj
+        self.states = unallocated_states(facts, cls, vec)
+        self.witness = None
+
+    def zero(self, n, depth=0):
+        """True iff the expression is 0 in every unallocated state"""
+        n = through_consts(self.fn, n)
+        if n is None or depth > 8:
+            return False
+        if is_zero(n):
+            return True
+        k = n.get("k")
+        if k in ("Construct", "TempObj") and len(n.get("a", [])) == 1:
+            return self.zero(n["a"][0], depth + 1)
+        if k == "MCall" and not n.get("a") and obj_key(n.get("obj")) == self.obj:
+            slot = scalar_slot_of(self.facts, n.get("callee"))
+            if slot is None or not self.states:
+                return False
+            for c_, slots, pn in self.states:
+                if slots.get(slot) != "zero":
+                    self.witness = (c_, pn, n.get("n"), slots.get(slot))
+                    return False
+            return True
+        if k == "Bin" and n.get("op") == "*":
+            return self.zero(n["lhs"], depth + 1) or self.zero(n["rhs"], depth + 1)
+        if k == "Cond":
+            t = self.truth(n["c"], depth + 1)
+            if t is True:
+                return self.zero(n["then"], depth + 1)
+            if t is False:
+                return self.zero(n["else"], depth + 1)
+            return self.zero(n["then"], depth + 1) and self.zero(n["else"], depth + 1)
+        return False
+
+    def truth(self, c, depth=0):
+        c = strip_cast(c)
+        if c.get("k") == "Un" and c.get("op") == "!":
+            t = self.truth(c["e"], depth + 1)
+            return None if t is None else (not t)
+        if c.get("k") == "Bin" and c.get("op") in ("==", "!=", ">", "<"):
+            for a_, b_, op in ((c["lhs"], c["rhs"], c["op"]), (c["rhs"], c["lhs"], {"<": ">", ">": "<"}.get(c["op"], c["op"]))):
+                if is_zero(b_) and self.zero(a_, depth + 1):
+                    return {"==": True, "!=": False, ">": False}.get(op)
+        return None
+
+
+def nullable_subscripts(facts, f):
+    """every subscript / dereference in f of a pointer obtained from a nullable accessor (directly or through a local pointer):
+    -> [(node, accessor MCall)]"""
+    accs = {}
+    for n in f.nodes():
+        if n.get("k") == "MCall" and not n.get("a") and n.get("ccls"):
+            na = nullable_accessors_cached(facts, n["ccls"])
+            if n.get("n") in na:
+                accs[id(n)] = (n, na[n["n"]])
+    ptrvar = {}
+    for n in f.nodes():
+        if n.get("k") == "Decl":
+            for v in n["vars"]:
+                ini = strip_cast(v.get("init")) if v.get("init") is not None else None
+                if ini is not None and id(ini) in accs:
+                    ptrvar[v["d"]] = accs[id(ini)]
+    out = []
+    for n in f.nodes():
+        base = None
+        if n.get("k") == "Index":
+            base = strip_cast(n["b"])
+        elif n.get("k") == "Un" and n.get("op") == "*" and not n.get("post"):
+            base = strip_cast(n["e"])
+        if base is None:
+            continue
+        if id(base) in accs:
+            out.append((n, accs[id(base)]))
+        elif base.get("k") == "Ref" and base.get("d") in ptrvar:
+            out.append((n, ptrvar[base["d"]]))
+    return out
+
+
+_NA_CACHE = {}
+
+
+def nullable_accessors_cached(facts, cls):
+    key = (id(facts), cls)
+    if key not in _NA_CACHE:
+        _NA_CACHE[key] = nullable_accessors(facts, cls)
+    return _NA_CACHE[key]
 
 
 def check_empty_containers(ck, facts):
@@ -2945,66 +3272,94 @@ def check_empty_containers(ck, facts):
             vec = strip_cast(n["obj"])["n"]
             key = "%s/%s(%s)/%s.at(%s)" % (sc, f.name, mode_of(n), vec, render(n["a"][0]))
             pushes = [x for x in f.nodes() if x.get("k") == "MCall" and x.get("n") == "push_back" and this_member(x.get("obj"), (vec,))]
-            dom = cfg is not None and any(cfg.stmt_dominates(x["i"], n["i"]) for x in pushes)
-            if not dom and cfg is not None:
-                # the access may be nested in the argument of a dominated statement: use the enclosing statement
-                x = n
-                while id(x) in par and cfg.block_of(x["i"]) is None:
-                    x = par[id(x)]
-                dom = any(cfg.stmt_dominates(p_["i"], x["i"]) for p_ in pushes if cfg.block_of(x["i"]) is not None)
-            guards = emptiness_guards(f, par, n, "this->" + vec)
+            tb = cfg_block_of(f, par, n)
+            x = n
+            while cfg is not None and cfg.block_of(x.get("i")) is None and id(x) in par:
+                x = par[id(x)]
+            dom = cfg is not None and any(cfg.stmt_dominates(p_["i"], x["i"]) for p_ in pushes)
+            guard = emptiness_guard(f, par, n, "this", vec)
             states = [c for c, _, _ in unallocated_states(facts, f.cls, vec)]
             if not states:
                 ck.incomplete("E7.slot-guard", "%s: no constructor of the class instantiated in the driver to establish the unallocated state" % key)
                 continue
-            ok = dom or bool(guards)
+            ok = dom or guard is not None
             ck.ob("E7.slot-guard", key, ok,
-                  ("dominated by a push_back to %s in the same routine" % vec) if dom else ("guarded by '%s'" % render(guards[0]["c"])) if guards else
+                  ("dominated by a push_back to %s in the same routine" % vec) if dom else
+                  ("only reachable on the non-empty edge of '%s'" % render(guard)) if guard is not None else
                   "this->%s.at(%s) is reached without any emptiness guard, while %s leaves %s empty and the public accessor of the same class guards exactly this access (returns nullptr)" % (
                       vec, render(n["a"][0]), short_cls(states[0].full), vec), f.file, n.get("l"))
-        # ---- B: subscripts of nullable accessors under loops whose trip count is not zero in the unallocated state
-        nacc = nullable_accessors(facts, f.cls)
-        for n in f.nodes():
-            if n.get("k") != "Index":
-                continue
-            b = strip_cast(n["b"])
-            if not (b.get("k") == "MCall" and b.get("n") in nacc and not b.get("a") and (b.get("obj") is None or strip_cast(b["obj"]).get("k") == "This")):
-                continue
-            vec = nacc[b["n"]]
-            loops = []
+        # ---- B: loops that subscript the pointer of a nullable accessor
+        subs = nullable_subscripts(facts, f)
+        loops = {}
+        for n, (acc, vec) in subs:
+            chain = []
             x = n
             while id(x) in par:
                 x = par[id(x)]
                 if x.get("k") in ("For", "While", "ForRange", "Do"):
-                    loops.append(x)
-            if not loops:
+                    chain.append(x)
+            if not chain:
+                # a subscript outside any loop: its own obligation
+                chain = [None]
+            inner = chain[0]
+            loops.setdefault(id(inner) if inner is not None else id(n), {"loop": inner, "chain": chain, "uses": []})["uses"].append((n, acc, vec))
+        ordinal = {}
+        for lid, info in sorted(loops.items(), key=lambda kv: ((kv[1]["loop"] or kv[1]["uses"][0][0]).get("l") or 0)):
+            lp = info["loop"]
+            n0, acc0, vec0 = info["uses"][0]
+            accs_used = sorted(set("%s()" % a.get("n") for _, a, _ in info["uses"]))
+            obj = obj_key(acc0.get("obj"))
+            base_key = "%s/%s(%s)/%s" % (sc, f.name, mode_of(n0), "+".join(accs_used))
+            ordinal[base_key] = ordinal.get(base_key, 0) + 1
+            key = base_key + ("#%d" % ordinal[base_key] if ordinal[base_key] > 1 else "")
+            results = []
+            for vec_ in sorted(set(v for _, _, v in info["uses"])):
+                uses_v = [(n_, a_, v_) for n_, a_, v_ in info["uses"] if v_ == vec_]
+                results.append(decide_nullable(ck, facts, f, par, cfg, info, uses_v, vec_, obj, lp, accs_used))
+            if any(r is None for r in results):
+                ck.incomplete("E7.nullable-deref", "%s: no constructor of %s instantiated in the driver to establish the array-free state" % (key, short_cls(acc0.get("ccls"))))
                 continue
-            outer = loops[-1]
-            c = strip_cast(outer.get("c")) if outer.get("k") == "For" else None
-            bound = strip_cast(c["rhs"]) if c is not None and c.get("k") == "Bin" and c.get("op") == "<" else None
-            if bound is None or not (bound.get("k") == "MCall" and not bound.get("a")):
-                continue
-            # is the subscript itself inside the outermost loop only through loops bounded by loaded offsets? report once per outer loop + accessor
-            if len(loops) > 1:
-                continue
-            slot = scalar_slot_of(facts, f.cls, bound["n"])
-            if slot is None:
-                ck.incomplete("E7.nullable-deref", "%s::%s: loop bound %s() is not a scalar slot accessor" % (sc, f.name, bound["n"]))
-                continue
-            key = "%s/%s(%s)/%s()[..] in loop over %s()" % (sc, f.name, mode_of(n), b["n"], bound["n"])
-            guards = emptiness_guards(f, par, outer, "this->" + vec)
-            witnesses = [(c_, pn) for c_, slots, pn in unallocated_states(facts, f.cls, vec) if slots.get(slot) == "param"]
-            ok = bool(guards) or not witnesses
-            nth = sum(1 for o in ck.obligations if o["rule"] == "E7.nullable-deref" and o["key"].split("#")[0] == key)
-            if any(o["rule"] == "E7.nullable-deref" and o["key"].split("#")[0] == key and o.get("_loop") == id(outer) for o in ck.obligations):
-                continue
-            key_n = key + ("#%d" % (nth + 1) if nth else "")
-            ck.ob("E7.nullable-deref", key_n, ok,
-                  ("guarded by '%s'" % render(guards[0]["c"])) if guards else
-                  ("%s() is zero whenever %s is unallocated" % (bound["n"], vec)) if not witnesses else
-                  "%s() returns nullptr when %s is empty; the constructor %s(%s) leaves %s empty with %s() taken from its argument, so this loop dereferences the null pointer for every matrix built that way" % (
-                      b["n"], vec, sc, ", ".join(witnesses[0][1]), vec, bound["n"]), f.file, n.get("l"))
-            ck.obligations[-1]["_loop"] = id(outer)
+            bad = [r for r in results if not r[0]]
+            if bad:
+                ck.ob("E7.nullable-deref", key, False, bad[0][1], f.file, n0.get("l"))
+            else:
+                ck.ob("E7.nullable-deref", key, True, "; ".join(sorted(set(r[1] for r in results))), f.file, n0.get("l"), trivial=all(r[2] for r in results))
+
+
+def decide_nullable(ck, facts, f, par, cfg, info, uses, vec0, obj, lp, accs_used):
+    """-> (ok, reason, trivial) for the uses of one array vector in one loop, or None if the array-free state cannot be established"""
+    n0, acc0, _ = uses[0]
+    names = "/".join(sorted(set("%s()" % a.get("n") for _, a, _ in uses)))
+    # arrays allocated by this very routine before the pointer is taken
+    if obj == "this" and cfg is not None:
+        pushes = [x for x in f.nodes() if x.get("k") == "MCall" and x.get("n") == "push_back" and this_member(x.get("obj"), (vec0,))]
+        if pushes and all(any(cfg.stmt_dominates(p_["i"], a_["i"]) for p_ in pushes) for _, a_, _ in uses):
+            return True, "%s: %s is allocated by a push_back in this routine before the pointer is taken" % (names, vec0), True
+    if obj.startswith("d"):
+        o_ = strip_cast(acc0.get("obj"))
+        ini = const_inits(f).get(o_.get("d"))
+        ini = strip_cast(ini) if ini is not None else None
+        if ini is not None and ini.get("k") in ("Construct", "TempObj") and ini.get("a") and f.name == "read_from":
+            return True, "%s: the object is constructed in this reader with the extent parsed from the size line (%s); files are assumed to be as the writer of the class produces them" % (
+                names, render(ini)[:60]), True
+    fs = FreeState(facts, f, acc0.get("ccls"), vec0, obj)
+    if not fs.states:
+        return None
+    for l_ in [x for x in info["chain"] if x is not None]:
+        if l_.get("k") == "For":
+            c = strip_cast(l_.get("c"))
+            if c is not None and c.get("k") == "Bin" and c.get("op") in ("<", "!="):
+                if fs.zero(c["rhs"]):
+                    return True, "%s: the loop at line %s runs to '%s', which is 0 whenever %s is unallocated" % (names, l_.get("l"), render(through_consts(f, c["rhs"]))[:70], vec0), False
+    g = emptiness_guard(f, par, lp if lp is not None else n0, obj, vec0)
+    if g is not None:
+        return True, "%s: only reachable on the non-empty edge of '%s'" % (names, render(g)), False
+    w = fs.witness
+    why_bad = "%s returns nullptr when %s is unallocated and is subscripted in the loop at line %s, whose trip count is not zero in that state" % (names, vec0, (lp or n0).get("l"))
+    if w is not None:
+        why_bad += ": the constructor %s(%s) leaves %s unallocated with %s() %s" % (
+            strip_targs(short_cls(w[0].cls)), ", ".join(w[1]), vec0, w[2], "taken from its argument" if w[3] == "param" else "not zero")
+    return False, why_bad + "; no emptiness guard dominates the loop", False
 
 
 # -------------------------------------------------------------------------------------------------
@@ -3209,6 +3564,9 @@ def declare_rules(ck, thorough):
     ck.rule("E12.magic", "the header words a meta vector writes in front of its sub-vector dumps (magic number, block count) are the ones its reader consumes and requires", 12)
     ck.rule("E12.text-banner", "every '%%MatrixMarket ...' banner a writer emits is accepted by the reader of the same class and mode", 12)
     ck.rule("E12.size-line", "the size line of the MatrixMarket modes is emitted in the order the reader parses it (rows columns [nnz] resp. size 1); breaks for: every non-square matrix", 10)
+    ck.rule("E2.linearisation", "a text reader that splits a running entry counter i into (i / E, i % E) divides by the extent of the dimension that receives i % E, and "
+            "that is the dimension the writer of the same mode runs fastest (both extents taken from the parsed size line by role); blocked vectors divide the parsed length by "
+            "the factor the writer multiplies with; breaks for: every non-square dense matrix", 3)
     ck.rule("E2.rowptr-kind", "in a text reader every subscript of the row_ptr array is a row index (induction variable over [0,rows()), or rows() for the end slot) - never the ordinal "
             "of an iteration over the rows that happen to have entries - and entries of a keyed row container go to the row equal to the key; breaks for: matrices with empty rows", 3)
     ck.rule("E2.rowptr-coverage", "row_ptr is assigned on the whole of [0, rows()]: unconditionally in a loop over all rows plus the end slot; breaks for: matrices with empty rows / no entries", 1)
@@ -3229,8 +3587,10 @@ def declare_rules(ck, thorough):
             "(count vs buffer bytes, buffer vs typed array, pack type), and encode and decode dispatch on the same conditions", 12)
     ck.rule("E7.slot-guard", "a direct this->_elements.at(k) / this->_indices.at(k) in write_out/read_from is dominated by a push_back to that vector or an emptiness early-out "
             "(the public accessors of the same class guard exactly this access); breaks for: vectors of length 0", 3)
-    ck.rule("E7.nullable-deref", "the pointer of an accessor that returns nullptr for unallocated arrays is not subscripted in a loop whose trip count is non-zero in that state "
-            "(a constructor leaves the arrays unallocated while taking that count from its argument); breaks for: matrices without entries created by the (rows, columns) constructor", 3)
+    ck.rule("E7.nullable-deref", "every loop of an IO routine that subscripts the pointer of an accessor which returns nullptr for unallocated arrays "
+            "(row_ptr/col_ind/val/elements/indices) has trip count zero in the array-free states the constructors establish (bound resolved through constant locals, "
+            "conditional expressions and the scalar slot the bound accessor reads), or is only reachable on the non-empty edge of an emptiness test, or the arrays are "
+            "allocated earlier in the same routine; breaks for: matrices without entries created by the (rows, columns) constructor, vectors of length 0", 16)
 
 
 def serializer_instances(facts):
@@ -3257,6 +3617,7 @@ def run_on(ck, facts, primary):
         check_meta_vector_magic(ck, facts)
         check_text_headers(ck, facts)
         check_size_lines(ck, facts)
+        check_linearisation(ck, facts)
         check_rowptr_builders(ck, facts)
         check_checkpoint_control(ck, facts)
         check_meta_checkpoints(ck, facts)
